@@ -454,6 +454,15 @@ Theorem C20_mixed_sources_interchangeable : forall ops1 ops2, Forall2 op_twin op
 Proof. exact mixed_sources_interchangeable. Qed.
 Print Assumptions C20_mixed_sources_interchangeable.
 
+(* the same for SOURCE scripts, each compiled on its own by the model compiler (what the check runs): sop_twin = the same
+   operation, register_function(python predicate over the rows) with other yielded values, or - for n >= 1 ground rows -
+   register_function(name, python predicate over the rows) against load_script(compile("name(row_1). .. name(row_n)."), overwrite=True) *)
+Theorem C20_mixed_sources_interchangeable_source : forall l1 l2 o1 o2, Forall2 sop_twin l1 l2 ->
+  sops_ops l1 = Some o1 -> sops_ops l2 = Some o2 ->
+  forall n name args s, cquery n (build cempty o1) name args s = cquery n (build cempty o2) name args s.
+Proof. exact source_mixed_sources_interchangeable. Qed.
+Print Assumptions C20_mixed_sources_interchangeable_source.
+
 (* register_function(p, python predicate over the rows); load_script(clauses cs2 of p, overwrite=False)  answers like the
    ONE definition  p(row_1). .. p(row_n). cs2 : the rows are the first clauses of the predicate *)
 Theorem C20_python_then_script_is_one_definition : forall call name rows vals cs2 f2 f12 cnt2 cnt2' cnt12 cnt12' args s,
